@@ -441,7 +441,9 @@ fn pool(profile: &str, rng: &mut Rng, tok: u64) -> Vec<u8> {
 }
 
 pub fn gen_case(profile: &str, rng: &mut Rng) -> Case {
-    let init = if profile == "C05" { *rng.pick(&["expired", "expired", "expired", "present"]) } else { *rng.pick(&["absent", "present", "expired"]) };
+    // "expired-cas": the expired item was created by a CAS-store on a missing key (client CAS 6, so it carries CAS 7 — a
+    // CAS the counter did not issue and that the same store would produce again)
+    let init = if profile == "C05" { *rng.pick(&["expired", "expired", "expired", "present"]) } else { *rng.pick(&["absent", "present", "expired", "expired-cas"]) };
     let mut setup = vec!["cnew 4096".to_string()];
     match init {
         "present" => {
@@ -452,14 +454,28 @@ pub fn gen_case(profile: &str, rng: &mut Rng) -> Case {
             setup.push(format!("creq {}", hex(&wire::set_like(op::SET, KEY, b"5", 9, 3, 0, 1).bytes())));
             setup.push("cnow 10".into());
         }
+        "expired-cas" => {
+            setup.push(format!("creq {}", hex(&wire::set_like(op::SET, KEY, b"5", 9, 3, 6, 1).bytes())));
+            setup.push("cnow 10".into());
+        }
         _ => setup.push("cnow 10".into()),
     }
-    let tok = 1;
-    let nthreads = if rng.chance(1, 3) { 3 } else { 2 };
+    let tok = if init == "expired-cas" { 6 } else { 1 };
+    let nthreads = if rng.chance(1, 3) || (init == "expired-cas" && rng.chance(1, 2)) { 3 } else { 2 };
+    let init_label = init;
+    let init = if init == "expired-cas" { "expired" } else { init };
     let mut programs = vec![];
     for _ in 0..nthreads {
         let ncmd = if nthreads == 2 && rng.chance(1, 3) { 2 } else { 1 };
         programs.push((0..ncmd).map(|_| pool(profile, rng, tok)).collect());
+    }
+    if init_label == "expired-cas" && rng.chance(1, 2) {
+        // two readers of the expired item and a client that repeats the CAS-store which created it
+        programs = vec![
+            vec![wire::key_only(op::GET, KEY, 0, 1).bytes()],
+            vec![wire::key_only(op::GET, KEY, 0, 2).bytes()],
+            vec![wire::set_like(op::SET, KEY, &rng.bytes(2), 1, *rng.pick(&[0u32, 50]), 6, 3).bytes()],
+        ];
     }
     Case { init, setup, programs }
 }
